@@ -104,6 +104,10 @@ class Interp:
                 if i != j: result = add(result, self.ev(expr, index))
                 elif self.scope.get('offdiag') is not None:
                     result = add(result, self.scope['offdiag'](self.ev(expr, index), index))
+            elif kind == 'lower':
+                # documented: "lower: indices in the lower triangle", statements are summed (generated as the last
+                # statement of a series only: the library stops evaluating a lower block after it)
+                if i > j: result = add(result, self.ev(expr, index))
             else:
                 raise ValueError(kind)
         return result
